@@ -73,6 +73,8 @@ def run(F, rep, tier):
     # by constraints stays shared for settled and for unknown nodes alike
     import c02
     core.borrow(rep, lambda F_, r_: c02.copy_discipline(F_, r_), lambda o: o["rule"] == "COPY" and o["key"].startswith("parts|"), F)
+    blob_unification_is_structural(F, rep)
+    signature_has_no_rules_of_its_own(F, rep)
     erased_return_type(F, rep)
     checker_annotation_blind(F, rep)
     annotation_is_a_fresh_instance(F, rep)
@@ -510,3 +512,63 @@ def checker_annotation_blind(F, rep):
            "written, e.g. a recursive `f: fn int -> int : pu n: int -> int do .. f(n - 1) end` is checked against the weaker "
            "annotation instead of the literal's own signature" % "; ".join("%s %s" % (a, b) for a, b, _ in bad),
            bad[0][2] if bad else None, sites=n)
+
+
+def blob_unification_is_structural(F, rep, rule="ANNOTATION-PERMISSIVE"):
+    """Without annotations a parameter that is only used as `m.v` accepts any blob with a field `v` (a Field constraint - the
+    declaration's name never enters).  With the annotation `m: Meters` the argument is unified with the declared blob type,
+    blob against blob.  The two agree only if that unification is structural as well: the row of sub_unify for two blobs decides
+    by the field sets and field types, the declarations' names appear in its error messages only."""
+    import tc
+    from hir import pat_alternatives, pat_strip, pat_variant, pat_fields
+    fsu = F.fn("sylt_compiler::typechecker::TypeChecker::sub_unify")
+    rep.analysed(fsu)
+    n = 0
+    for m in nodes(fn_body(fsu), "Match"):
+        if (m.get("scrut_ty") or "").count("sylt_compiler::ty::Type") != 2:
+            continue
+        for arm in m["arms"]:
+            for alt in pat_alternatives(arm["pat"]):
+                alt = pat_strip(alt)
+                if alt.get("k") != "Tuple" or len(alt["pats"]) != 2:
+                    continue
+                if not all((pat_variant(p_) or "").endswith("Type::Blob") for p_ in alt["pats"]):
+                    continue
+                n += 1
+                names = set()
+                for p_ in alt["pats"]:
+                    for b in pat_bindings(pat_fields(p_).get("0")):
+                        names.add(b["hid"])
+                deciding = []
+                for x in nodes(arm["body"]):
+                    cond = x.get("c") if x.get("k") == "If" else (x.get("scrut") if x.get("k") == "Match" else None)
+                    if cond is not None and any(y.get("hid") in names for y in nodes(cond, "Path")):
+                        deciding.append(x)
+                if arm.get("guard") is not None and any(y.get("hid") in names for y in nodes(arm["guard"], "Path")):
+                    deciding.append(arm["guard"])
+                rep.ob(rule, "sub_unify|Blob|names-decide-nothing", not deciding,
+                       "two blob types are unified by their fields; the declarations' names only appear in messages" if not deciding else
+                       "the blob/blob row of sub_unify lets the declarations' *names* decide (`%s`): an unannotated `fn m do m.v end` "
+                       "takes any blob with a field v, the same function with the correct annotation `m: Meters` rejects a `Feet { v: .. }` "
+                       "- adding the annotation changes acceptance" % pp(deciding[0].get("c") or deciding[0].get("scrut") or deciding[0])[:60],
+                       line_of(deciding[0]) if deciding else line_of(arm))
+    rep.floor(rule, "blob/blob rows of sub_unify", n, 1)
+
+
+def signature_has_no_rules_of_its_own(F, rep, rule="ANNOTATION-PERMISSIVE"):
+    """Turning a written signature into a type only resolves the annotations and ties them to the parameters: every way it can
+    fail is the failure of a resolution or a unification.  A rule of its own (`a generic in the return type must occur in a
+    parameter`) rejects some subsets of correct annotations and accepts others."""
+    import tc
+    fn = F.fn("sylt_compiler::typechecker::TypeChecker::type_from_function")
+    rep.analysed(fn)
+    own = [x for x in nodes(fn_body(fn)) if x.get("k") == "Ret" and tc.is_err_value(x)]
+    tail = tc.n_tail(fn_body(fn))
+    if isinstance(tail, dict) and tc.is_err_value(tail):
+        own.append(tail)
+    # `?` desugars to a Ret as well: those carry the callee's error on (From::from / from_residual)
+    own = [x for x in own if "from_residual" not in pp(x) and "From::from" not in pp(x)]
+    rep.ob(rule, "type_from_function|no-error-of-its-own", not own,
+           "type_from_function fails only when resolving or unifying an annotation fails" if not own else
+           "type_from_function has an error exit of its own (`%s`): whether a function is accepted then depends on *which* of its "
+           "correct annotations are written (`fn x -> *T` rejected, `fn x: *T -> *T` and `fn x` accepted)" % tc.err_kind(own[0]), line_of(own[0]) if own else fn["sp"])
